@@ -153,7 +153,8 @@ def concurrent_schedules(seed, n, big):
 # ------------------------------------------------------------------------------------------------------------------
 def mutators():
     def flip_res(t):
-        # only a Store of ONE datum: the result of a larger set may legitimately depend on the map iteration order
+        # only the FIRST Store of a trace and only if it stores ONE datum: the result of a larger set may depend on the
+        # map iteration order, and after a failed larger set the spec does not know which part of it was stored
         calls = {e["op"]: e for e in t if e.get("ev") == "StoreCall"}
         for e in t:
             if e.get("ev") == "StoreRet":
@@ -161,13 +162,14 @@ def mutators():
                 if len(c["set"]) == 1 and len(c["set"][0]["data"]) == 1 and c["duty"]["type"] != "agg":
                     e["res"] = "err" if e["res"] == "ok" else "ok"
                     return t
+                return None
         return None
 
     def wrong_value(t):
         for e in t:
             if e.get("ev") == "Return" and "err" not in e["res"]:
                 f = "bits" if "bits" in e["res"] else ("head" if "head" in e["res"] else "root")
-                e["res"][f] += 1
+                e["res"][f] += 7            # a value outside every universe
                 return t
         return None
 
@@ -192,7 +194,7 @@ def mutators():
     def wrong_pubkey(t):
         for e in t:
             if e.get("ev") == "PubKeyRet":
-                e["res"] = "Z" if e["res"] != "notfound" else "A"
+                e["res"] = "Z"              # a pubkey outside every universe
                 return t
         return None
 
@@ -262,18 +264,20 @@ def run(tier, seed):
     rnd = random_schedules(seed, 3000 if thorough else 400, thorough, n_aggdev)
     conc = concurrent_schedules(seed, 1000 if thorough else 60, thorough)
     # stage 2+3
-    vlib.conformance(o, FAMILY, TRACE, CFG, "c06", [PROBE], tag="probe", dev_cfgs=DEV)
+    def conf(schedules, tag, **kw):
+        try:
+            vlib.conformance(o, FAMILY, TRACE, CFG, "c06", schedules, tag=tag, dev_cfgs=DEV, **kw)
+        except vlib.Infra as e:
+            # a rejection that depends on an unlogged choice (Go map order, interleaving) may not come back on
+            # re-execution; that is only tolerable when this run has already produced a reproduced violation
+            if "did not reproduce" not in str(e) or not o.violations:
+                raise
+            o.notes.append("%s: %s" % (tag, str(e)[:300]))
+    conf([PROBE], "probe")
     probe_hit = any(k == FINDING for k, _ in o.known)
-    vlib.conformance(o, FAMILY, TRACE, CFG, "c06", scheds, tag="tlcgen", dev_cfgs=DEV)
-    vlib.conformance(o, FAMILY, TRACE, CFG, "c06", rnd, tag="random", dev_cfgs=DEV)
-    try:
-        vlib.conformance(o, FAMILY, TRACE, CFG, "c06", conc, tag="conc", dev_cfgs=DEV, chunk=60, env={"C06_REPEAT": "2"})
-    except vlib.Infra as e:
-        # a rejected concurrent history depends on the interleaving and may not come back on re-execution; that is only
-        # tolerable when the deterministic tiers have already produced a reproduced violation
-        if not o.violations:
-            raise
-        o.notes.append("concurrent tier: " + str(e)[:300])
+    conf(scheds, "tlcgen")
+    conf(rnd, "random")
+    conf(conc, "conc", chunk=60, env={"C06_REPEAT": "2"})
     if not probe_hit:
         note = ("probe for known finding %s no longer reproduces (storeAggAttestationUnsafe no longer replaces an aggregate "
                 "with equal data root): remove the finding and the deviation cfg" % FINDING)
@@ -286,13 +290,14 @@ def run(tier, seed):
         got = {t[0].get("sid") for t in vlib.split_traces(vlib.read_ndjson(vlib.workdir(PID) + "/trace_%s.ndjson" % tag))}
         if len(got) < len(ss) and not o.violations:
             raise vlib.Infra("executor stopped after %d of %d %s schedules without a rejected trace" % (len(got), len(ss), tag))
-    # binding negative controls on recorded traces
+    # binding negative controls on recorded traces of a conforming run
     # (not on the schedules that aim at the known finding: there the strict spec allows reject as well as keep-first)
-    tr = vlib.split_traces(vlib.read_ndjson(vlib.workdir(PID) + "/trace_tlcgen.ndjson"))[:150]
-    tr += [t for t in vlib.split_traces(vlib.read_ndjson(vlib.workdir(PID) + "/trace_random.ndjson"))
-           if t[0].get("sid", 0) >= n_aggdev][:150]
-    acc = vlib.validate_traces(PID, FAMILY, TRACE, CFG, tr).accepted
-    vlib.binding_selftest(o, FAMILY, TRACE, CFG, [tr[i] for i in acc], mutators())
+    if not o.violations:
+        tr = vlib.split_traces(vlib.read_ndjson(vlib.workdir(PID) + "/trace_tlcgen.ndjson"))[:150]
+        tr += [t for t in vlib.split_traces(vlib.read_ndjson(vlib.workdir(PID) + "/trace_random.ndjson"))
+               if t[0].get("sid", 0) >= n_aggdev][:150]
+        acc = vlib.validate_traces(PID, FAMILY, TRACE, CFG, tr).accepted
+        vlib.binding_selftest(o, FAMILY, TRACE, CFG, [tr[i] for i in acc], mutators())
     return vlib.finish(o, "model_checking", RULE,
                        ["a scripted core.Deadliner stands in for the real one: Add answers Expired exactly after the schedule "
                         "expired the duty, C() carries the expired duties that had been added",
